@@ -512,13 +512,13 @@ func (r *fileRewriter) expr(e ast.Expr) ast.Expr {
 				case "delete":
 					if r.cfg.HB {
 						if nm, ok := r.sharedMapName(x.Args[0]); ok {
-							x.Args[0] = call(r.vrt("MapW"), x.Args[0], str(nm))
+							x.Args[0] = call(r.vrt("MapW"), x.Args[0], str("map:"+nm))
 						}
 					}
 				case "len":
 					if r.cfg.HB {
 						if nm, ok := r.sharedMapName(x.Args[0]); ok {
-							x.Args[0] = call(r.vrt("MapR"), x.Args[0], str(nm))
+							x.Args[0] = call(r.vrt("MapR"), x.Args[0], str("map:"+nm))
 						}
 					}
 				}
@@ -578,7 +578,7 @@ func (r *fileRewriter) expr(e ast.Expr) ast.Expr {
 				if r.lhs[x] {
 					fn = "MapW"
 				}
-				x.X = call(r.vrt(fn), x.X, str(nm))
+				x.X = call(r.vrt(fn), x.X, str("map:"+nm))
 				r.stats["mapop"]++
 			}
 		}
@@ -891,7 +891,7 @@ func (r *fileRewriter) rangeStmt(x *ast.RangeStmt) ast.Stmt {
 		// for k, v := range m { body } => for _, k := range vrt.MapKeys(m) { v, ok := m[k]; if !ok { continue }; body }
 		mexpr := x.X
 		if nm, ok := r.sharedMapName(x.X); ok && r.cfg.HB {
-			mexpr = call(r.vrt("MapR"), x.X, str(nm))
+			mexpr = call(r.vrt("MapR"), x.X, str("map:"+nm))
 		}
 		mName := r.newTmp("m")
 		kName := r.newTmp("k")
